@@ -523,6 +523,24 @@ fn c08_cands(rng: &mut Rng, _pre: &Snap, _t: Tier) -> Vec<Cand> {
             v.push(Cand { ops: vec![Op::Feed(format!("\x1b[0;{};{}m{}\x08\x1b[{}m{}", base, first, g, second, g))] });
         }
     }
+    // the rendition replaced by a non-SGR route (DECRC, RIS, DECSCNM), then the very list that was
+    // applied last is sent again: it must be folded over the *current* rendition
+    for _ in 0..6 {
+        let a = gen::rendition(rng);
+        let b = gen::rendition(rng);
+        let route = match rng.below(3) {
+            0 => vec![Op::Api(Call::RestoreCursor)],
+            1 => vec![Op::Api(Call::Reset)],
+            _ => vec![Op::Api(Call::SetMode(vec![5], true)), Op::Api(Call::ResetMode(vec![5], true))],
+        };
+        let mut ops = vec![Op::Api(Call::Sgr(a.clone())), Op::Api(Call::SaveCursor), Op::Api(Call::Sgr(b.clone()))];
+        ops.extend(route.clone());
+        ops.push(Op::Api(Call::Sgr(b.clone())));
+        ops.push(Op::Api(Call::Draw("x".into())));
+        v.push(Cand { ops });
+        let fmt = |l: &Vec<u32>| l.iter().map(|x| x.to_string()).collect::<Vec<_>>().join(";");
+        v.push(Cand { ops: vec![Op::Feed(format!("\x1b[{}m\x1b7\x1b[{}m\x1b8\x1b[{}mx", fmt(&a), fmt(&b), fmt(&b)))] });
+    }
     // an abandoned or skipped control sequence before the SGR must leave nothing behind
     for pre in ["\x1b[1;4\x18", "\x1b[7;\x1a", "\x1b[1;1;5;5;1$r", "\x1b[38;5;", "\x1b[38;5;\x18", "\x1b[4;9z", "\x1b]4;1;rgb:ff/00/00\x07", "\x1b[?1;5\x18"] {
         let code = *rng.pick(&SGR_DOC);
@@ -659,6 +677,16 @@ fn c12_cands(rng: &mut Rng, _pre: &Snap, _t: Tier) -> Vec<Cand> {
             v.push(Cand { ops: vec![Op::Feed(format!("{}{}", sa, sb))] });
         }
         v.push(Cand { ops: vec![Op::Api(a), Op::Api(b)] });
+    }
+    // a `?`-marked sequence that is abandoned or skipped must not make the next SM/RM private,
+    // and an unmarked abandoned one must not strip the `?` of the next
+    for pre in ["\x1b[?7$p", "\x1b[?25\x18", "\x1b[?1;2\x1a", "\x1b[4$p", "\x1b[20;\x18"] {
+        for (m, private) in [(4u32, false), (20, false), (7, false), (25, false), (3, false), (6, true), (25, true), (4, true)] {
+            let sw = if rng.bool() { SetMode(vec![m], private) } else { ResetMode(vec![m], private) };
+            if let Some(seq) = sw.to_seq() {
+                v.push(Cand { ops: vec![Op::Feed(format!("{}{}", pre, seq))] });
+            }
+        }
     }
     // the three "governing" modes, each switched and then exercised by drawing / newline
     for (m, private) in [(4u32, false), (20, false), (7, true)] {
@@ -1144,6 +1172,29 @@ fn c18_cands(rng: &mut Rng, pre: &Snap, _t: Tier) -> Vec<Cand> {
         }
         v.push(Cand { ops });
     }
+    // "initially and after reset, tab stops sit at every 8th column (< columns)": RIS after the
+    // width changed (resize, DECCOLM set / reset), then an HT walk
+    for _ in 0..4 {
+        let mut ops: Vec<Op> = Vec::new();
+        match rng.below(4) {
+            0 => ops.push(Op::Api(SetMode(vec![3], true))),
+            1 => {
+                ops.push(Op::Api(SetMode(vec![3], true)));
+                ops.push(Op::Api(Resize(None, Some(rng.range(9, 120)))));
+                ops.push(Op::Api(ResetMode(vec![3], true)));
+            }
+            2 => ops.push(Op::Api(Resize(None, Some(c + rng.range(1, 40))))),
+            _ => {
+                ops.push(Op::Api(SetMode(vec![3], true)));
+                ops.push(Op::Api(ResetMode(vec![3], true)));
+            }
+        }
+        ops.push(if rng.bool() { Op::Api(Reset) } else { Op::Feed("\x1bc".into()) });
+        for _ in 0..18 {
+            ops.push(Op::Api(Tab));
+        }
+        v.push(Cand { ops });
+    }
     // HTS at the pending-wrap column, then HT from the left
     v.push(Cand { ops: vec![Op::Api(CursorToColumn(Some(c))), Op::Api(Draw("p".into())), Op::Api(SetTabStop), Op::Api(CarriageReturn), Op::Api(Tab), Op::Api(Tab), Op::Api(Tab)] });
     v.push(Cand { ops: vec![Op::Feed("\x1bH\r\t\t\x1b[g\r\t\x1b[3g\r\t".into())] });
@@ -1213,7 +1264,7 @@ pub static C18: StepCheck = StepCheck {
     rule: "per-step Hoare monitor: cursor after HT and stop set after HTS/TBC vs the closed form (nearest stop strictly right, else last column, never beyond; HTS adds the cursor column, TBC 0/absent removes it, 3 clears, others nothing), everything else unchanged; HTS/TBC sequences are followed by an HT walk across the row so the stop set is also observed through behaviour; width changes (resize, DECCOLM) between setting and using a stop.",
     required: &["step-judged", "pending-wrap", "defaults"],
     // only HTS / TBC / RIS may edit the stop set: every other call is judged for that component
-    owns: |c, _| if c.owner() == "C18" { Own::Full } else if matches!(c, Call::Reset) { Own::No } else { Own::Only(&["tabstops"]) },
+    owns: |c, _| if c.owner() == "C18" { Own::Full } else { Own::Only(&["tabstops"]) },
     profile: || Profile { tabs: 60, pending_wrap: 25, ..Default::default() },
     cands: c18_cands,
     enumerated: c18_enum,
